@@ -6,7 +6,7 @@ import os
 import struct
 
 from vf.core import SECTOR, Model, as_handle, rng_for
-from vf.diskcheck import compare_reads, continuation_reads, crossing_count, gen_requests, mismatch_detail
+from vf.diskcheck import compare_reads, continuation_reads, fault_retry_reads, crossing_count, gen_requests, mismatch_detail
 from vf.monitors import call
 from vf.writers import vmdk as w
 
@@ -285,6 +285,7 @@ def run(case: dict, ctx) -> dict:
             reqs.append((a, min(rng.randrange(cov // 2, 2 * cov + 2), 3 << 20)))
         res["cnt"]["table_crossing_requests"] = 12
     continuation_reads(v, model, reqs, rng, res, MECH)
+    fault_retry_reads(v, model, reqs, rng, res, MECH)
     compare_reads(v, model, reqs, res, MECH)
     # sector interface
     total = meta["capacity"]
